@@ -49,12 +49,15 @@ MaxOf(E, N) == CHOOSE m \in {E[v] : v \in 0..N} : \A v \in 0..N : m >= E[v]
 FirstArgMin(E, N) == CHOOSE v \in 0..N : E[v] = MinOf(E, N) /\ \A w \in 0..(v - 1) : E[w] > E[v]
 FirstArgMax(E, N) == CHOOSE v \in 0..N : E[v] = MaxOf(E, N) /\ \A w \in 0..(v - 1) : E[w] < E[v]
 
-\* what a reader expects of highest / lowest / secondhighest (ties: the first index)
+\* what a reader expects of highest / lowest / secondhighest.  Ties: highest and lowest are the FIRST index (which
+\* vertex moves and which is returned depends on it); of secondhighest only the value is ever used.
 RankLaw(E, N, h, l, s) ==
     /\ h = FirstArgMax(E, N)
     /\ l = FirstArgMin(E, N)
-    /\ (h # l) => (s # h /\ \A v \in (0..N) \ {h} : E[v] <= E[s])
-    /\ (h = l) => (s = h /\ \A v \in 0..N : E[v] = E[0])
+    /\ s \in 0..N
+    /\ \A v \in (0..N) \ {h} : E[v] <= E[s]
+    /\ (h # l) => s # h
+    /\ (h = l) => \A v \in 0..N : E[v] = E[0]
 
 \* at most one reflection, one expansion or contraction and N re-evaluations per pass
 EvalBudget(N, passes) == (N + 1) + passes * (N + 2)
